@@ -5,6 +5,19 @@ import json, pathlib
 ALL = [f'C{i:02d}' for i in range(1, 20)]
 
 CHECKS = {
+ 'C07': dict(
+   technique='Coq proof with the geometry as an arbitrary oracle (termination without error, order, containment under the inset law; erosion / dilation laws in a normed space) + differential with recorded GEOS answers + shapely monitors',
+   text='Props/C07.v: for every polygon type and every answer of the inset / hatching oracles the modelled generator finishes '
+        'normally, yields at most n contours followed by the hatchings, and every contoured / hatched polygon lies inside the '
+        'block whenever insets lie inside their parent; the mathematical erosion lies inside the polygon and a polygon inset '
+        'twice by delta and re-grown by delta+eps (eps <= delta) stays inside (normed-space lemmas); the pre-fix loop is '
+        'machine-refuted. Tie to /repo: convex, L, U, bow-tie, sliver (0.2..11 spacings) and trench-like polygons with '
+        'spacings 0.0005..0.01 and 2..8 turns; buffer_polygon / zigzag are wrapped to record GEOS answers which are replayed '
+        'into the model (sequence of contours and hatchings, exception or not); shapely checks that every yielded polyline '
+        'lies in the block and that no part of the block is farther than 1.06 delta from the path, and that border is the outline.',
+   note='Trusted: Coq kernel (Reals axioms for the two normed-space statements); GEOS as oracle; shapely-based monitors and their '
+        'tolerances (1e-5 containment, 1e-4 relative uncovered area); coverage is decided on instances only.',
+   design='5/C07'),
  'C04': dict(
    technique='Coq proof over R (trigonometric identities for the two arcs of an S-bend, squared length, circle membership, sinusoidal end points) and over Q (linear / end) + differential on the appended block of every segment call',
    text='Props/C04.v: for every radius r > 0 and offset |dy| <= 4r the two arcs of an S-bend start at the current point, end at '
